@@ -150,6 +150,11 @@ def pp(n, extra_parens=None):
         e, body = n.kids
         es = child(e, e.prio() > PRIO['group'])
         return f'{es} [{pp(body, extra_parens)}]'
+    if k == 'sebefore':
+        # a side-effect block written in front of the operand it belongs to (only used after an operator or a comma)
+        e, body = n.kids
+        es = child(e, e.prio() > PRIO['group'])
+        return f'[{pp(body, extra_parens)}] {es}'
     if k == 'nested':
         return '{ ' + pp(n.kids[0], extra_parens) + ' }'
     if k == 'reapply':
